@@ -2,6 +2,19 @@
 """writes MANIFEST.json from the table below (kept in one place so that it stays valid)"""
 import json
 CHECKS = {
+ "C18": dict(
+   text="Proof about a Lean model of the glue in solve_ivp plus the loop model of C03: args are bound in order to the parameters after (t, y); "
+        "the step-clipping callback returns a step of magnitude within [min_step, max_step] with the sign of the current step (also for "
+        "negative steps); the initial step is at most max_step; with the clipping callback after every step and a starting step within the "
+        "bound, EVERY step requested from the integrator is at most max_step (loop_requests_bounded: any integrator, any span, either "
+        "direction); the t_eval loop is a sequence of integrate(t) calls in the direction of integration, so the C03 call-sequence theorem "
+        "gives the returned times. Tied to the code by comparing seeded solve_ivp calls (names/aliases/classes, forward/backward, t_eval "
+        "variants, shapes, args, step limits, dense, events) bit for bit with driving the object API by hand; shapes, first column, t_eval "
+        "times, max_step and scipy agreement (tolerance level) are evaluated on the results.",
+   note="Trusted: Lean kernel, standard axioms, harness. The by-hand driver in the harness restates what the facade is documented to do; "
+        "agreement with scipy is a measurement.",
+   technique="Lean 4 proof (glue lemmas + loop invariant for bounded requests) + bit-exact differential testing against the object API",
+   design="5 (C18)"),
  "C19": dict(
    text="Proof about a Lean model of OdeSystem.__getitem__ and of Python's iteration protocol: an integer index addresses the n samples "
         "like a sequence (0 <= i < n -> i, -n <= i < 0 -> n + i, else IndexError), iteration visits 0..n-1 once in order, and lookup by time "
